@@ -709,8 +709,17 @@ class SysSim(Engine):
                 # the ways a caller writes it: keywords or positions, a Python bool or what numpy / a table cell hands over
                 style = (st.step + int(bool(op["raise"])) + len(sys_.flows)) % 4
                 flag = [bool(op["raise"]), np.bool_(bool(op["raise"])), int(bool(op["raise"])), bool(op["raise"])][style]
+                kwd = {}
+                if op["tol"] is not None or (st.step + len(sys_.flows)) % 3 == 0:
+                    kwd["tolerance"] = op["tol"]
+                if not op["raise"] or (st.step + len(sys_.stocks)) % 3 == 0:
+                    kwd["raise_error"] = flag
                 if style == 3:
                     sys_.check_mass_balance(op["tol"], flag)
+                elif len(kwd) < 2:
+                    # what the documented defaults are for (tolerance scaled to the largest magnitude; raise on failure): not mentioned
+                    self._probe(st, "check_called_with_defaults_left_out")
+                    sys_.check_mass_balance(**kwd)
                 else:
                     sys_.check_mass_balance(tolerance=op["tol"], raise_error=flag)
                 out = ("ret", None)
@@ -789,8 +798,19 @@ class SysSim(Engine):
             try:
                 style = (st.step + int(bool(op["raise"])) + len(exceptions)) % 4
                 flag = [bool(op["raise"]), np.bool_(bool(op["raise"])), int(bool(op["raise"])), bool(op["raise"])][style]
+                kwd = {}
+                if exceptions or (st.step + len(sys_.flows)) % 3 == 0:
+                    kwd["exceptions"] = list(exceptions)
+                if op["raise"] or (st.step + len(sys_.stocks)) % 3 == 0:
+                    kwd["raise_error"] = flag
+                if op.get("verbose") or st.step % 2:
+                    kwd["verbose"] = bool(op.get("verbose"))
                 if style == 3:
                     sys_.check_flows(list(exceptions), flag, bool(op.get("verbose")))
+                elif len(kwd) < 3:
+                    # documented defaults (no exceptions, warn instead of raise, terse messages) left out
+                    self._probe(st, "check_called_with_defaults_left_out")
+                    sys_.check_flows(**kwd)
                 else:
                     sys_.check_flows(exceptions=list(exceptions), raise_error=flag, verbose=bool(op.get("verbose")))
                 out = ("ret", None)
@@ -809,6 +829,12 @@ class SysSim(Engine):
             if not flagged and not unspecified and out[0] == "raise":
                 raise Violation("check-flows-exact", f"check_flows(raise_error=True) raised {out[1]} although no non-excepted flow holds NaN or "
                                                      f"an entry below -tolerance", cls="check-flows-exact:false-alarm", **tags)
+            return
+        if out[0] == "raise" and "raise_error" not in kwd and style != 3:
+            # the mode was not mentioned: the property does not say which one is the default - raising is then fine iff something is flagged
+            if not flagged and not unspecified:
+                raise Violation("check-flows-exact", f"check_flows() raised {out[1]} although no non-excepted flow holds NaN or an entry below "
+                                                     f"-tolerance", cls="check-flows-exact:false-alarm", **tags)
             return
         if out[0] == "raise":
             raise Violation("check-flows-exact", f"check_flows(raise_error=False) raised {out[1]}", cls="check-flows-exact:raised", **tags)
